@@ -416,6 +416,14 @@ func runSub(build, tmp string, s plan.Sub, tier string, seed int64) *subResult {
 				}
 				mu.Lock()
 				if ee, ok := err.(*exec.ExitError); ok && ee.ExitCode() == 2 && len(prog) == 0 {
+					full := stderr.String()
+					if strings.Contains(full, "fatal error: concurrent map") && strings.Contains(full, "github.com/thanos-community/promql-engine/") {
+						// the Go runtime found two goroutines in one map, with engine code on the
+						// stack: the process of an embedding application would have died the same way
+						res.crashes = append(res.crashes, Failure{Prop: s.Name[:3], Kind: "crash", Symptom: "process-death:concurrent map access in " + raceSite(full), Sub: s.Name, Detail: tail})
+						mu.Unlock()
+						return
+					}
 					res.herr = "worker failed: " + tail
 					mu.Unlock()
 					return
